@@ -504,10 +504,10 @@ class TypeMatcherInstance:
     def __gt__(self, other):
         return self._op(operator.gt, other)
 
-    def __lte__(self, other):
+    def __le__(self, other):
         return self._op(operator.le, other)
 
-    def __gte__(self, other):
+    def __ge__(self, other):
         return self._op(operator.ge, other)
 
     def __noteq__(self, other):
